@@ -14,6 +14,6 @@ build_demo() {
 run_demo() { if [ -f $o/run_demo.sh ]; then sh $o/run_demo.sh; else $o/demo.bin; fi; }
 echo "== 1. suite WITH the change"; /tmp/seedtools/run_suite_in.sh $d
 echo "== 2. demo WITH the change (must fail)"; build_demo; if run_demo > $o/demo.with.log 2>&1; then echo "DEMO PASSED WITH CHANGE (bad)"; r2=bad; else echo "demo failed as required: $(tail -1 $o/demo.with.log | cut -c1-150)"; r2=ok; fi
-echo "== 3. demo WITHOUT the change (must pass)"; git checkout -q -- programs/igzip.1 2>/dev/null || true; git apply -R $o/patch.check.diff; make -j8 > /dev/null 2>&1; build_demo; if run_demo > $o/demo.without.log 2>&1; then echo "demo passed as required: $(tail -1 $o/demo.without.log | cut -c1-150)"; r3=ok; else echo "DEMO FAILED WITHOUT CHANGE (bad)"; r3=bad; fi
-git checkout -q -- programs/igzip.1 2>/dev/null || true; git apply $o/patch.check.diff; make -j8 > /dev/null 2>&1
+echo "== 3. demo WITHOUT the change (must pass)"; git checkout -q -- programs/igzip.1 2>/dev/null || true; git apply -R $o/patch.check.diff; find . -name '*.asm' | xargs touch; make -j8 > /dev/null 2>&1; build_demo; if run_demo > $o/demo.without.log 2>&1; then echo "demo passed as required: $(tail -1 $o/demo.without.log | cut -c1-150)"; r3=ok; else echo "DEMO FAILED WITHOUT CHANGE (bad)"; r3=bad; fi
+git checkout -q -- programs/igzip.1 2>/dev/null || true; git apply $o/patch.check.diff; find . -name '*.asm' | xargs touch; make -j8 > /dev/null 2>&1
 [ $r2 = ok ] && [ $r3 = ok ] && echo "CONFIRMED $id" || { echo "NOT CONFIRMED $id"; exit 1; }
